@@ -163,6 +163,7 @@ Example O02_inv_guard_sites :
   "goose.Ctx.prophIdMethod | unsupported | ""method %s of primitive.ProphId""";
   "goose.Ctx.packageMethod | futureWork | ""unhandled call to primitive.%s""";
   "goose.Ctx.methodExpr | unsupported | ""conversion from type %v to string""";
+  "goose.Ctx.methodExpr | unsupported | ""recursive call of a generic function at other type arguments""";
   "goose.Ctx.methodExpr | nope | ""double explicit generic type instantiation""";
   "goose.Ctx.methodExpr | nope | ""double explicit generic type instantiation with multiple arguments""";
   "goose.Ctx.methodExpr | unsupported | ""call to unexpected function (of type %T)""";
